@@ -133,7 +133,7 @@ def run_copy_case(kind: str, case_seed: int, variant: str, n_mut: int, collect: 
 
 def search_copies(ck: Ck) -> None:
     from harness import c09_util as U
-    n = ck.budget(900, 12000)
+    n = ck.budget(3500, 40000)
     cases: list[tuple[str, int, str]] = []
     if CORPUS.exists():
         for p in sorted(CORPUS.glob('*.json')):
@@ -178,7 +178,7 @@ def cert_cases(ck: Ck) -> None:
     """Export original+copy object graphs of real objects and let the kernel check the separation certificate
     (the premise of c09_export_ok_independent)."""
     from harness import c09_util as U
-    n = ck.budget(44, 300)
+    n = ck.budget(110, 550)
     exprs, meta = [], []
     kinds = itertools.cycle(U.KINDS)
     tries = 0
@@ -202,7 +202,13 @@ def cert_cases(ck: Ck) -> None:
         ck.hist('certificate_heap_nodes', len(nodes) // 50 * 50)
         if len(nodes) >= 4:
             ck.seen(('cert', kind, seed, variant))
-    vals = ck.coq_eval(IMPORTS, exprs, name='cert', preamble='Import ListNotations.\n', timeout=900)
+    vals: list[str] | None = []
+    for lo in range(0, len(exprs), 55):
+        part = ck.coq_eval(IMPORTS, exprs[lo:lo + 55], name='cert', preamble='Import ListNotations.\n', timeout=900)
+        if part is None:
+            vals = None
+            break
+        vals += part
     if vals is None:
         ck.obligation('certificate:export_ok', False, 'exported heaps could not be evaluated by coqc')
         ck.tie_broken.append('certificate evaluation failed')
@@ -227,7 +233,7 @@ def search_operators(ck: Ck) -> None:
     from harness.c09_util import bits
     from srctools.math import Angle, FrozenAngle, FrozenMatrix, FrozenVec, Matrix, Vec
     r = ck.rng
-    n = ck.budget(6, 60)
+    n = ck.budget(40, 400)
 
     def operands():
         f = lambda: r.choice([0.0, -0.0, 1.0, -1.5, 90.0, 359.5, 1e-3, 37.25, 1024.0])
@@ -372,7 +378,7 @@ def run_kv_add(case_seed: int) -> list[dict]:
 
 
 def search_kv_add(ck: Ck) -> None:
-    n = ck.budget(400, 5000)
+    n = ck.budget(3000, 30000)
     found: dict[str, tuple[dict, int]] = {}
     seeds = [ck.rng.randrange(1 << 30) for _ in range(n)]
     for s in seeds:
@@ -391,7 +397,7 @@ def corr_kv_add(ck: Ck, side: dict) -> None:
     if not recv:
         return
     r = ck.rng
-    n = ck.budget(200, 2000)
+    n = ck.budget(400, 2000)
     cases = []
     for _ in range(n):
         self_names = [r.randint(1, 9) for _ in range(r.choice([0, 1, 3]))]
@@ -515,7 +521,7 @@ def run_instance_case(case_seed: int) -> list[dict]:
 
 
 def search_instancing(ck: Ck) -> None:
-    n = ck.budget(25, 300)
+    n = ck.budget(150, 2000)
     found: dict[str, tuple[dict, int]] = {}
     for _ in range(n):
         s = ck.rng.randrange(1 << 30)
